@@ -151,6 +151,16 @@ def eval_case(case):
             sim_rates = ([sim.error_rate] if hasattr(sim, 'error_rate')
                          else [float(x) for x in sim.error_rates])
             dec_obj = sim.decoder if hasattr(sim, 'decoder') else sim.decoders[0]
+            # every (size, bias, rate) combination is simulated with a decoder
+            # built for that rate
+            pairs = ([(sim.decoder, sim.error_rate)] if hasattr(sim, 'decoder')
+                     else list(zip(sim.decoders, [float(x) for x in sim.error_rates])))
+            for dec_i, rate_i in pairs:
+                if rkey(float(dec_i.error_rate)) != rkey(float(rate_i)):
+                    fail('decoder_built_for_its_rate',
+                         f'{type(sim).__name__} runs error rate {rate_i!r} with a decoder built '
+                         f'for error rate {dec_i.error_rate!r} (rates {list(sim_rates)})')
+                    break
             want_cls = 'SplittingSimulation' if a['method'] == 'splitting' else 'DirectSimulation'
             if type(sim).__name__ != want_cls:
                 fail('method', f'{type(sim).__name__} built for method {a["method"]}')
